@@ -360,7 +360,7 @@ def run_task(task):
     elif f == 'layout':
         # the same small-scope cases handed over in another memory layout
         lay = task['layout']
-        for n in (3, 4, 5):
+        for n in (3, 4):
             for x in itertools.product((0, 1, 3), repeat=n):
                 x = list(x)
                 for w in range(1, n + 1):
